@@ -9,9 +9,10 @@ op_x from the right.  Clause text below: with par(x) := (number of JW-needing fa
     ValueError  iff  the total number is odd,   sites shifted by one common multiple of... (first site into the unit cell).
 needs_JW and the operator-name product are uninterpreted (contracts of Site.op_needs_JW / multiply_op_names assumed).
 
-Scope: any number of factors n >= 2 on any sites, any operators; the length of the unit cell is fixed to L = 3 in this
-contract (with a symbolic L the site index `i % L` is nonlinear and both solvers give up inside the quantified invariants;
-L only selects which site object is asked for needs_JW).
+Scope: any number of factors n >= 2 on any sites, any operators, any unit cell length L >= 1.  With a symbolic L the site
+index `i % L` is nonlinear; the contract therefore runs with `%` as an uninterpreted function (its defining property is
+added for every term the code computes) plus two lemmas proved in the same run by cvc5: 0 <= a < L ==> a % L == a, and
+b - c == (i0 % L) - i0 ==> b % L == c % L (the common shift of the sites is a multiple of L).
 """
 import z3
 
@@ -27,6 +28,8 @@ _JWMUL = z3.Function('JW_times_opname', z3.IntSort(), U, U)            # site.mu
 
 def _setup(I, env):
     L = env['self'].attrs['L']
+    if not isinstance(L, int):
+        I.ghost['uninterpreted_mod'] = True      # symbolic unit cell: i % L as uninterpreted function + proved lemmas
 
     def site_at(I_, idx):
         def needs(I2, op):
@@ -45,7 +48,8 @@ def _setup(I, env):
     term = env['term']
     k = z3.Int('k!needs')
     # needs[x] = 1 if factor x needs a JW string (its site taken modulo the unit cell, as the function does) else 0
-    site_k = I.pymod(z3.Select(term.leaves[1], k), to_z3(L))
+    site_k = (I.MODU(z3.Select(term.leaves[1], k), to_z3(L)) if I.ghost.get('uninterpreted_mod')
+              else I.pymod(z3.Select(term.leaves[1], k), to_z3(L)))
     needs = SArr(term.n, [z3.Lambda([k], z3.If(_NEEDS(site_k, z3.Select(term.leaves[0], k)), 1, 0))], 'int', True)
     I.ghost['__env__'] = {'needs': needs,
                           'times_JW': Builtin(lambda I2, i, op: Opq(_MULJW(to_z3(i), to_z3(op, U))), 'times_JW')}
@@ -92,40 +96,41 @@ def _hunt():
 
 _PAR = 'ssum(needs, 0, {} + 1) % 2 == 1'
 
-Contract(
-    target=f'{TERMS}::MultiCouplingTerms.multi_coupling_term_handle_JW', props=['C10', 'C12'], name='multi_coupling_term_handle_JW[op_string=None, L=3]',
-    params={'self': Obj('MultiCouplingTerms', TERMS, {'L': Const(3)}), 'strength': Opaque(),
-            'term': List(('tuple', ['U', 'int'], None)), 'sites': Const(None), 'op_string': Const(None)},
-    setup=_setup, hunt=_hunt,
-    requires=['self.L >= 1',
-              # documented: "We require the operators to be sorted (strictly ascending) by sites" (transitive form)
-              'forall2(0, len(term), lambda p, q: implies(p < q, term[p][1] < term[q][1]))'],
-    raises={'ValueError': 'len(term) < 2 or (exists(0, len(term), lambda k: needs[k] == 1) and ssum(needs, 0, len(term)) % 2 == 1)'},
-    ensures=[
-        'len(result[1]) == len(term) and len(result[2]) == len(term) and len(result[3]) == len(term) - 1',
-        # the sites move by one common shift that brings the first one into the unit cell
-        '0 <= result[1][0] < self.L',
-        'forall(0, len(term), lambda x: result[1][x] - result[1][0] == term[x][1] - term[0][1])',
-        # no fermionic factor at all: identities in between, operators untouched
-        'implies(not exists(0, len(term), lambda k: needs[k] == 1), forall(0, len(term) - 1, lambda x: result[3][x] == "Id"))',
-        'implies(not exists(0, len(term), lambda k: needs[k] == 1), forall(0, len(term), lambda x: result[2][x] == term[x][0]))',
-        # otherwise: a string right of factor x, and a JW multiplied onto factor x, iff the parity of the factors 0..x is odd
-        'implies(exists(0, len(term), lambda k: needs[k] == 1), forall(0, len(term) - 1, lambda x: '
-        'result[3][x] == ite(' + _PAR.format('x') + ', "JW", "Id")))',
-        'implies(exists(0, len(term), lambda k: needs[k] == 1), forall(0, len(term), lambda x: '
-        'result[2][x] == ite(' + _PAR.format('x') + ', times_JW(term[x][1] % self.L, term[x][0]), term[x][0])))',
-    ],
-    loops={0: {
-        'as_arr': {'new_op_str': 'U'},
-        'inv': ['number_ops == len(term) and len(ops) == number_ops and len(ijkl) == number_ops and len(new_op_str) == _i and L == self.L',
-                'len(op_needs_JW) == number_ops and forall(0, number_ops, lambda k: op_needs_JW[k] == (needs[k] == 1))',
-                'forall(0, number_ops, lambda k: (ijkl[k] - term[k][1]) % L == 0) and 0 <= ijkl[0] < L',
-                'forall(0, number_ops, lambda x: ijkl[x] - ijkl[0] == term[x][1] - term[0][1])',
-                'JW_right == (ssum(needs, 0, _i) % 2 == 1)',
-                'forall(0, _i, lambda x: new_op_str[x] == ite(' + _PAR.format('x') + ', "JW", "Id"))',
-                'forall(0, _i, lambda x: ops[x] == ite(' + _PAR.format('x') + ', times_JW(term[x][1] % L, term[x][0]), term[x][0]))',
-                'forall(_i, number_ops, lambda x: ops[x] == term[x][0])'],
-        'lemmas': ['sum_unfold(needs, 0, 0)'],
-        'lemmas_pres': ['sum_unfold(needs, 0, _i)'],
-    }},
-)
+for _tag, _Lspec in (('any L', Int()),):
+  Contract(
+      target=f'{TERMS}::MultiCouplingTerms.multi_coupling_term_handle_JW', props=['C10', 'C12'], name=f'multi_coupling_term_handle_JW[op_string=None, {_tag}]',
+      params={'self': Obj('MultiCouplingTerms', TERMS, {'L': _Lspec}), 'strength': Opaque(),
+              'term': List(('tuple', ['U', 'int'], None)), 'sites': Const(None), 'op_string': Const(None)},
+      setup=_setup, hunt=_hunt,
+      requires=['self.L >= 1',
+                # documented: "We require the operators to be sorted (strictly ascending) by sites" (transitive form)
+                'forall2(0, len(term), lambda p, q: implies(p < q, term[p][1] < term[q][1]))'],
+      raises={'ValueError': 'len(term) < 2 or (exists(0, len(term), lambda k: needs[k] == 1) and ssum(needs, 0, len(term)) % 2 == 1)'},
+      ensures=[
+          'len(result[1]) == len(term) and len(result[2]) == len(term) and len(result[3]) == len(term) - 1',
+          # the sites move by one common shift that brings the first one into the unit cell
+          '0 <= result[1][0] < self.L',
+          'forall(0, len(term), lambda x: result[1][x] - result[1][0] == term[x][1] - term[0][1])',
+          # no fermionic factor at all: identities in between, operators untouched
+          'implies(not exists(0, len(term), lambda k: needs[k] == 1), forall(0, len(term) - 1, lambda x: result[3][x] == "Id"))',
+          'implies(not exists(0, len(term), lambda k: needs[k] == 1), forall(0, len(term), lambda x: result[2][x] == term[x][0]))',
+          # otherwise: a string right of factor x, and a JW multiplied onto factor x, iff the parity of the factors 0..x is odd
+          'implies(exists(0, len(term), lambda k: needs[k] == 1), forall(0, len(term) - 1, lambda x: '
+          'result[3][x] == ite(' + _PAR.format('x') + ', "JW", "Id")))',
+          'implies(exists(0, len(term), lambda k: needs[k] == 1), forall(0, len(term), lambda x: '
+          'result[2][x] == ite(' + _PAR.format('x') + ', times_JW(term[x][1] % self.L, term[x][0]), term[x][0])))',
+      ],
+      loops={0: {
+          'as_arr': {'new_op_str': 'U'},
+          'inv': ['number_ops == len(term) and len(ops) == number_ops and len(ijkl) == number_ops and len(new_op_str) == _i and L == self.L',
+                  'len(op_needs_JW) == number_ops and forall(0, number_ops, lambda k: op_needs_JW[k] == (needs[k] == 1))',
+                  '0 <= ijkl[0] < L and ijkl[0] == term[0][1] % L',
+                  'forall(0, number_ops, lambda x: ijkl[x] - ijkl[0] == term[x][1] - term[0][1])',
+                  'JW_right == (ssum(needs, 0, _i) % 2 == 1)',
+                  'forall(0, _i, lambda x: new_op_str[x] == ite(' + _PAR.format('x') + ', "JW", "Id"))',
+                  'forall(0, _i, lambda x: ops[x] == ite(' + _PAR.format('x') + ', times_JW(term[x][1] % L, term[x][0]), term[x][0]))',
+                  'forall(_i, number_ops, lambda x: ops[x] == term[x][0])'],
+          'lemmas': ['sum_unfold(needs, 0, 0)'] + ([] if _tag == 'L=3' else ['mod_small(term[0][1], L)', 'mod_shift(term[0][1], L)']),
+          'lemmas_pres': ['sum_unfold(needs, 0, _i)'] + ([] if _tag == 'L=3' else ['mod_shift(term[0][1], L)']),
+      }},
+  )
